@@ -1904,6 +1904,154 @@ Proof.
     rewrite (updm_updm mem _ _ st _ _ Hm). reflexivity.
 Qed.
 
+(* ---------- a 2-D column: one vector per passing element of an outer collection ---------- *)
+Lemma vec_elem_type2 (a : bexp) : vector_elem_type (vec_type (vec_type (btype a))) = vec_type (btype a).
+Proof. destruct (btype_cases a) as [E|E]; rewrite E; reflexivity. Qed.
+Lemma conv_vec_id (a : bexp) (vs : list value) : conv (vec_type (btype a)) (VVec vs) = VVec vs.
+Proof. destruct (btype_cases a) as [E|E]; rewrite E; reflexivity. Qed.
+Lemma default_vec (a : bexp) : default_value (vec_type (btype a)) = VVec [].
+Proof. unfold default_value. rewrite vec_is_vector. reflexivity. Qed.
+
+(* nt.push_back(E) for a vector declared in the frames *)
+Lemma exec_push_frame (brs : list branch) (ev : event) (nt ty : string) (E : cexp) (R : res value) (s : state) (acc : list value) :
+  fget nt s = Some (vec_type ty, VVec acc) -> vector_elem_type (vec_type ty) = ty -> eval ev s E = R ->
+  exec_stmt brs ev (SPush nt None E) s =
+  match R with
+  | ROk x => ROk (upd nt (VVec (acc ++ [conv ty x])) s)
+  | RFault f => RFault f
+  | RStuck k => RStuck k
+  end.
+Proof.
+  intros Hg Hty He. cbn [exec_stmt]. rewrite He.
+  destruct R as [x|f|k]; cbn [rbind]; try reflexivity.
+  destruct (assign_upd nt (VVec (acc ++ [conv ty x])) s _ _ Hg) as (Ha & Hlk & _).
+  rewrite Hlk. rewrite Hty. rewrite Ha. reflexivity.
+Qed.
+
+Lemma loop_push_frame (brs : list branch) (ev : event) (iv : string) (ar : bool) (nt : string) (body : bexp) (ps : guard) (n m : nat) (l : list value) :
+  forall (st : state) (acc : list value),
+  fget nt st = Some (vec_type (btype body), VVec acc) -> String.eqb nt iv = false -> String.eqb nt (bo_name n) = false ->
+  (forall j, String.eqb nt (if_name j) = false) -> (forall j, String.eqb (if_name j) iv = false) ->
+  String.eqb iv (bo_name n) = false -> String.eqb (bo_name n) iv = false ->
+  nstuck (vec_loop ev (btype body) body ps l acc) ->
+  for_loop brs ev iv (loop_block iv ar ps n (bdecls body m) (app_stmts (bpre iv ar body m) (one_stmt (SPush nt None (bx iv ar body m))))) l st =
+  match vec_loop ev (btype body) body ps l acc with
+  | ROk vs => ROk (upd nt (VVec vs) st)
+  | RFault f => RFault f
+  | RStuck k => RStuck k
+  end.
+Proof.
+  induction l as [|v r IH]; intros st acc Hg Hne Hnb Hnf Hifiv Hib Hbi Hn.
+  - cbn [vec_loop]. rewrite for_loop_nil. rewrite (upd_same nt _ st _ Hg). reflexivity.
+  - cbn [vec_loop] in *. rewrite for_loop_cons.
+    rewrite (loop_block_exec brs ev iv ar ps n _ _ v st (bdecls_free body m) Hib Hbi (nstuck_bind_l _ _ Hn)).
+    destruct (gpasses ev v ps) as [b|f|k]; cbn [rbind] in *; [|reflexivity|destruct Hn].
+    destruct b; cbn [rbind]; [|apply (IH st acc Hg Hne Hnb Hnf Hifiv Hib Hbi Hn)].
+    rewrite exec_stmts_app.
+    pose proof (body_ready brs ev ps n iv ar v st body m Hifiv) as B.
+    unfold db in Hn |- *.
+    destruct (dconds ev v body) as [rs|f|k]; cbn [rbind] in *; [|rewrite B; reflexivity|destruct Hn].
+    destruct B as (T' & E & Hiv' & Hoth & Hev). rewrite E. cbn [rbind]. rewrite exec_one.
+    set (S1 := istate ps n iv v T' st).
+    assert (Hg1 : fget nt S1 = Some (vec_type (btype body), VVec acc)) by (unfold S1; rewrite istate_fget_other; [exact Hg|exact Hne|exact Hnb|apply Hoth, Hnf]).
+    assert (HnR : nstuck (dbx ev v body rs)) by (destruct (dbx ev v body rs); [exact I|exact I|destruct Hn]).
+    rewrite (exec_push_frame brs ev nt (btype body) _ (dbx ev v body rs) S1 acc Hg1 (vec_elem_type body) (Hev HnR)).
+    destruct (dbx ev v body rs) as [x|f|k] eqn:Ex; cbn [rbind] in *; [|reflexivity|destruct Hn].
+    unfold S1. rewrite (upd_istate_other ps n iv v T' st nt _ _ _ Hne Hnb (Hoth nt Hnf) Hg). rewrite ipop_istate.
+    destruct (assign_upd nt (VVec (acc ++ [conv (btype body) x])) st _ _ Hg) as (_ & _ & Hg2 & _).
+    rewrite (IH _ _ Hg2 Hne Hnb Hnf Hifiv Hib Hbi Hn).
+    destruct (vec_loop ev (btype body) body ps r (acc ++ [conv (btype body) x])) as [vs|f|k]; try reflexivity.
+    rewrite (upd_upd nt _ _ st _ _ Hg). reflexivity.
+Qed.
+
+Lemma tvec2_decls_free (c2 : collref) (body : bexp) (nt : string) (m : nat) : init_free (tvec2_decls c2 body nt m).
+Proof. repeat constructor. Qed.
+
+(* the outer loop of a 2-D column *)
+Lemma loop_vec2 (brs : list branch) (ev : event) (idiom : string) (ar1 : bool) (g1 : guard) (c2 : collref) (g2 : guard) (body : bexp)
+      (mem nt : string) (n : nat) (l : list value) :
+  forall (st : state) (acc : list value),
+  fget mem st = None -> mget mem st = Some (vec_type (vec_type (btype body)), VVec acc) ->
+  String.eqb mem (iv_name n) = false -> String.eqb mem (bo_name n) = false ->
+  String.eqb mem (vcv_name c2 (c2_at n g1)) = false -> String.eqb mem nt = false ->
+  String.eqb nt (vcv_name c2 (c2_at n g1)) = false ->
+  String.eqb nt (iv_name n) = false -> String.eqb (vcv_name c2 (c2_at n g1)) (iv_name n) = false ->
+  String.eqb nt (iv_name (c2_at n g1)) = false -> String.eqb nt (bo_name (c2_at n g1)) = false ->
+  (forall j, String.eqb nt (if_name j) = false) ->
+  nstuck (vec2_loop ev g1 c2 g2 body l acc) ->
+  for_loop brs ev (iv_name n) (loop_block (iv_name n) ar1 g1 n (tvec2_decls c2 body nt (c2_at n g1))
+                                          (tvec2_inner idiom c2 g2 body mem nt (c2_at n g1))) l st =
+  match vec2_loop ev g1 c2 g2 body l acc with
+  | ROk vs => ROk (updm mem (VVec vs) st)
+  | RFault f => RFault f
+  | RStuck k => RStuck k
+  end.
+Proof.
+  set (m := c2_at n g1). set (c2v := vcv_name c2 m). set (ty := btype body).
+  assert (Hib : String.eqb (iv_name n) (bo_name n) = false) by (apply nm_neq; [reflexivity|reflexivity|lia]).
+  assert (Hbi : String.eqb (bo_name n) (iv_name n) = false) by (apply nm_neq; [reflexivity|reflexivity|lia]).
+  assert (Hib2 : String.eqb (iv_name m) (bo_name m) = false) by (apply nm_neq; [reflexivity|reflexivity|lia]).
+  assert (Hbi2 : String.eqb (bo_name m) (iv_name m) = false) by (apply nm_neq; [reflexivity|reflexivity|lia]).
+  assert (Hifiv2 : forall j, String.eqb (if_name j) (iv_name m) = false) by (intro j; apply nm_neq_base; [reflexivity|reflexivity|discriminate]).
+  induction l as [|v r IH]; intros st acc Hf Hm Hmiv Hmbo Hmc Hmnt Hntc Hntiv Hciv Hntiv2 Hntbo2 Hntif Hn.
+  - cbn [vec2_loop]. rewrite for_loop_nil. rewrite (updm_same mem _ st _ Hm). reflexivity.
+  - cbn [vec2_loop] in *. rewrite for_loop_cons.
+    rewrite (loop_block_exec brs ev (iv_name n) ar1 g1 n _ _ v st (tvec2_decls_free c2 body nt m) Hib Hbi (nstuck_bind_l _ _ Hn)).
+    destruct (gpasses ev v g1) as [b|f|k]; cbn [rbind] in *; [|reflexivity|destruct Hn].
+    destruct b; cbn [rbind]; [|apply (IH st acc Hf Hm Hmiv Hmbo Hmc Hmnt Hntc Hntiv Hciv Hntiv2 Hntbo2 Hntif Hn)].
+    (* the block of the outer element: the second collection and the local vector are declared in its frame *)
+    set (T0 := dframe (tvec2_decls c2 body nt m)).
+    assert (Hcn : String.eqb c2v nt = false) by (rewrite String.eqb_sym; exact Hntc).
+    assert (T0c : frame_get c2v T0 = Some (c_ctype c2, default_value (c_ctype c2))).
+    { unfold T0, tvec2_decls, dframe. cbn [map d_name d_type frame_get]. fold c2v. rewrite String.eqb_refl. reflexivity. }
+    assert (T0n : frame_get nt T0 = Some (vec_type ty, VVec [])).
+    { unfold T0, tvec2_decls, dframe. cbn [map d_name d_type frame_get]. fold c2v. rewrite Hntc, String.eqb_refl.
+      unfold ty. rewrite default_vec. reflexivity. }
+    assert (T0m : frame_get mem T0 = None).
+    { unfold T0, tvec2_decls, dframe. cbn [map d_name d_type frame_get]. fold c2v. fold m in Hmc. fold c2v in Hmc. rewrite Hmc, Hmnt. reflexivity. }
+    unfold tvec2_inner. rewrite exec_stmts_cons. cbn [exec_stmt].
+    unfold dvec_of in Hn |- *.
+    destruct (assoc_ss (c_ctype c2, c_bank c2) (ev_colls ev)) as [cval|]; [|reflexivity].
+    set (S0 := istate g1 n (iv_name n) v T0 st).
+    assert (Hc0 : fget c2v S0 = Some (c_ctype c2, default_value (c_ctype c2))) by (apply istate_fget_T; [exact Hciv|exact T0c]).
+    destruct (assign_upd c2v cval S0 _ _ Hc0) as (Has & _ & _).
+    fold c2v. rewrite Has. cbn [rbind].
+    unfold S0. rewrite (upd_istate_T g1 n (iv_name n) v T0 st c2v cval _ _ Hciv T0c).
+    destruct (fset_spec c2v cval T0 _ _ T0c) as (_ & T1c & T1o).
+    set (T1 := fset c2v cval T0) in *.
+    set (S1 := istate g1 n (iv_name n) v T1 st).
+    assert (Hc1 : fget c2v S1 = Some (c_ctype c2, cval)) by (apply istate_fget_T; [exact Hciv|exact T1c]).
+    assert (Hn1 : fget nt S1 = Some (vec_type ty, VVec [])) by (apply istate_fget_T; [exact Hntiv|rewrite (T1o nt Hntc); exact T0n]).
+    rewrite exec_stmts_cons. unfold tvec_loop. rewrite exec_for.
+    change (eval ev S1 (CDeref (CVar (vcv_name c2 m))))
+      with (rbind (eval ev S1 (CVar c2v)) (fun x => match x with VNull => RFault FNullDeref | _ => ROk x end)).
+    rewrite eval_var, (lookup_fget _ _ _ Hc1).
+    destruct cval as [z0|q0|b0|o0| |l2|s0|f0 a0| ]; cbn [rbind] in *; try (destruct Hn; fail); try reflexivity.
+    fold ty in Hn |- *.
+    assert (Hn2 : nstuck (vec_loop ev ty body g2 l2 [])) by (apply (nstuck_bind_l _ _ (nstuck_bind_l _ _ Hn))).
+    rewrite (loop_push_frame brs ev (iv_name m) (c_arrow c2) nt body g2 m (m + gsize g2) l2 S1 [] Hn1 Hntiv2 Hntbo2 Hntif Hifiv2 Hib2 Hbi2 Hn2).
+    fold ty.
+    destruct (vec_loop ev ty body g2 l2 []) as [vs|f|k]; cbn [rbind] in *; [|reflexivity|destruct Hn].
+    unfold S1. rewrite (upd_istate_T g1 n (iv_name n) v T1 st nt (VVec vs) _ _ Hntiv (eq_trans (T1o nt Hntc) T0n)).
+    destruct (fset_spec nt (VVec vs) T1 _ _ (eq_trans (T1o nt Hntc) T0n)) as (_ & T2n & T2o).
+    set (T2 := fset nt (VVec vs) T1) in *.
+    set (S2 := istate g1 n (iv_name n) v T2 st).
+    rewrite exec_one.
+    assert (Hf2 : fget mem S2 = None).
+    { unfold S2. rewrite istate_fget_other; [exact Hf|exact Hmiv|exact Hmbo|]. unfold T2, T1. apply fset_none, fset_none. exact T0m. }
+    assert (Hm2 : mget mem S2 = Some (vec_type (vec_type ty), VVec acc)) by (unfold S2; rewrite mget_istate; exact Hm).
+    assert (He2 : eval ev S2 (CVar nt) = ROk (VVec vs)).
+    { rewrite eval_var. rewrite (lookup_fget nt S2 (vec_type ty, VVec vs)); [reflexivity|]. apply istate_fget_T; [exact Hntiv|exact T2n]. }
+    rewrite (exec_push brs ev mem (vec_type ty) (CVar nt) (ROk (VVec vs)) S2 acc Hf2 Hm2 (vec_elem_type2 body) He2).
+    cbn [rbind]. unfold ty. rewrite conv_vec_id. fold ty.
+    unfold c2v. fold (tvec_loop c2 g2 body nt m). fold (tvec2_inner idiom c2 g2 body mem nt m).
+    unfold S2. rewrite updm_istate, ipop_istate.
+    destruct (assign_updm mem (VVec (acc ++ [VVec vs])) st _ _ Hf Hm) as (_ & _ & Hm3 & _).
+    rewrite (IH _ _ (eq_trans (fget_updm _ _ _ _) Hf) Hm3 Hmiv Hmbo Hmc Hmnt Hntc Hntiv Hciv Hntiv2 Hntbo2 Hntif Hn).
+    destruct (vec2_loop ev g1 c2 g2 body r (acc ++ [VVec vs])) as [ws|f|k]; try reflexivity.
+    rewrite (updm_updm mem _ _ st _ _ Hm). reflexivity.
+Qed.
+
 (* ---------- one First column ---------- *)
 (* the state after the loop: untouched unless the capture ran in it *)
 Definition first_state (isf mem : string) (found o : option value) (st : state) : state :=
@@ -2058,31 +2206,36 @@ Definition cds (c : column) (n : nat) : list decl :=
   | ColScalar e => tds e n
   | ColVec cr _ _ => [{| d_type := c_ctype cr; d_name := vcv_name cr n; d_init := None |}]
   | ColFirst cr g _ _ => [{| d_type := c_ctype cr; d_name := vcv_name cr n; d_init := None |}; fi_decl (isf_name (n + gsize g))]
+  | ColVec2 c1 _ _ _ _ => [{| d_type := c_ctype c1; d_name := vcv_name c1 n; d_init := None |}]
   end.
-Definition css (idiom : string) (c : column) (mem : string) (n : nat) : stmts :=
+Definition vec2_stmts (idiom : string) (c1 : collref) (g1 : guard) (c2 : collref) (g2 : guard) (body : bexp) (mem nt : string) (n : nat) : stmts :=
+  SCons (SFetch idiom (vcv_name c1 n) (c_ctype c1) (c_bank c1) (fetch_lines idiom (c_ctype c1) (c_bank c1)))
+        (one_stmt (tvec2_loop idiom c1 g1 c2 g2 body mem nt n)).
+Definition css (idiom : string) (c : column) (mem : string) (ntk n : nat) : stmts :=
   match c with
   | ColScalar e => tss idiom e n
   | ColVec cr ps body => vec_stmts idiom cr ps body mem n
   | ColFirst cr ps body line => first_stmts idiom cr ps body line mem n
+  | ColVec2 c1 g1 c2 g2 body => vec2_stmts idiom c1 g1 c2 g2 body mem (nt_name ntk) n
   end.
-Lemma tcol_split (idiom : string) (c : column) (mem : string) (n : nat) :
-  tcol idiom c mem n = (cds c n, css idiom c mem n, n + col_size c).
+Lemma tcol_split (idiom : string) (c : column) (mem : string) (ntk n : nat) :
+  tcol idiom c mem ntk n = (cds c n, css idiom c mem ntk n, n + col_size c).
 Proof.
-  destruct c as [e|cr ps body|cr ps body line]; cbn [tcol cds css col_size].
+  destruct c as [e|cr ps body|cr ps body line|c1 g1 c2 g2 body]; cbn [tcol cds css col_size]; [| | |reflexivity].
   - rewrite (te_split idiom e n). rewrite (ex_size_size e). reflexivity.
   - unfold vec_stmts. replace (n + (2 + gsize ps + nifs body)) with (S (S n) + gsize ps + nifs body) by lia. reflexivity.
   - unfold first_stmts. replace (n + (3 + gsize ps)) with (S (S (S n)) + gsize ps) by lia. reflexivity.
 Qed.
 Fixpoint rds (r : row) (n : nat) : list decl :=
   match r with [] => [] | (_, c) :: t => cds c n ++ rds t (n + col_size c) end.
-Fixpoint rss (idiom : string) (r : row) (nf k n : nat) : stmts :=
+Fixpoint rss (idiom : string) (r : row) (nf k ntk n : nat) : stmts :=
   match r with
   | [] => SNil
-  | (name, c) :: t => app_stmts (css idiom c (mem_name name (nf + k)) n) (rss idiom t nf (S k) (n + col_size c))
+  | (name, c) :: t => app_stmts (css idiom c (mem_name name (nf + k)) ntk n) (rss idiom t nf (S k) (col_nts c + ntk) (n + col_size c))
   end.
-Lemma trow_split (idiom : string) (r : row) : forall nf k n, trow idiom r nf k n = (rds r n, rss idiom r nf k n).
+Lemma trow_split (idiom : string) (r : row) : forall nf k ntk n, trow idiom r nf k ntk n = (rds r n, rss idiom r nf k ntk n).
 Proof.
-  induction r as [|[name c] t IH]; intros nf k n; cbn [trow rds rss]; [reflexivity|].
+  induction r as [|[name c] t IH]; intros nf k ntk n; cbn [trow rds rss]; [reflexivity|].
   rewrite tcol_split, IH. reflexivity.
 Qed.
 Fixpoint rsets (r : row) (nf k n : nat) : stmts :=
@@ -2091,33 +2244,40 @@ Fixpoint rsets (r : row) (nf k n : nat) : stmts :=
   | (name, c) :: t =>
       match c with
       | ColScalar e => SCons (SSet (mem_name name (nf + k)) None (tc e n)) (rsets t nf (S k) (n + col_size c))
-      | ColVec _ _ _ | ColFirst _ _ _ _ => rsets t nf (S k) (n + col_size c)
+      | ColVec _ _ _ | ColFirst _ _ _ _ | ColVec2 _ _ _ _ _ => rsets t nf (S k) (n + col_size c)
       end
   end.
 Lemma trow_sets_split (idiom : string) (r : row) : forall nf k n, trow_sets idiom r nf k n = rsets r nf k n.
 Proof.
   induction r as [|[name c] t IH]; intros nf k n; cbn [trow_sets rsets]; [reflexivity|].
-  destruct c as [e|cr ps body|cr ps body line]; cbn [col_size].
+  destruct c as [e|cr ps body|cr ps body line|c1 g1 c2 g2 body]; cbn [col_size].
   - rewrite (te_split idiom e n), IH. rewrite (ex_size_size e). reflexivity.
   - replace (n + (2 + gsize ps + nifs body)) with (S (S n) + gsize ps + nifs body) by lia. apply IH.
   - replace (n + (3 + gsize ps)) with (S (S (S n)) + gsize ps) by lia. apply IH.
+  - apply IH.
 Qed.
 
 Definition cvars (c : column) (n : nat) : list string :=
-  match c with ColScalar e => vars e n | ColVec cr _ _ => [vcv_name cr n] | ColFirst cr g _ _ => [vcv_name cr n; isf_name (n + gsize g)] end.
+  match c with
+  | ColScalar e => vars e n | ColVec cr _ _ => [vcv_name cr n] | ColFirst cr g _ _ => [vcv_name cr n; isf_name (n + gsize g)]
+  | ColVec2 c1 _ _ _ _ => [vcv_name c1 n]    (* the names of the outer loop's block live and die inside it *)
+  end.
 Fixpoint rvars (r : row) (n : nat) : list string :=
   match r with [] => [] | (_, c) :: t => cvars c n ++ rvars t (n + col_size c) end.
 Fixpoint rmems (r : row) (nf k : nat) : list string :=
   match r with [] => [] | (name, _) :: t => mem_name name (nf + k) :: rmems t nf (S k) end.
 Definition col_bases_ok (c : column) : bool :=
-  match c with ColScalar e => bases_ok e | ColVec cr _ _ | ColFirst cr _ _ _ => base_ok (c_base cr) end.
+  match c with
+  | ColScalar e => bases_ok e | ColVec cr _ _ | ColFirst cr _ _ _ => base_ok (c_base cr)
+  | ColVec2 c1 _ c2 _ _ => base_ok (c_base c1) && base_ok (c_base c2)
+  end.
 Fixpoint row_bases_ok (r : row) : bool :=
   match r with [] => true | (_, c) :: t => col_bases_ok c && row_bases_ok t end.
 
 Lemma cvars_shape (c : column) (n : nat) (x : string) : col_bases_ok c = true -> In x (cvars c n) ->
   exists b i, x = nm b i /\ last_digit b = false /\ first_not_underscore b = true /\ n <= i < n + col_size c.
 Proof.
-  destruct c as [e|cr ps body|cr ps body line]; cbn [col_bases_ok cvars col_size]; intros Hb Hin.
+  destruct c as [e|cr ps body|cr ps body line|c1 g1 c2 g2 body]; cbn [col_bases_ok cvars col_size]; intros Hb Hin.
   - rewrite ex_size_size. apply vars_shape; assumption.
   - destruct Hin as [<-|[]]. unfold base_ok in Hb. apply andb_prop in Hb as [H1 H2]. apply negb_true_iff in H1.
     exists (c_base cr), n. repeat split; auto; lia.
@@ -2125,6 +2285,8 @@ Proof.
     destruct Hin as [<-|[<-|[]]].
     + exists (c_base cr), n. repeat split; auto; lia.
     + exists "is_first", (S (S (n + gsize ps))). repeat split; auto; lia.
+  - apply andb_prop in Hb as [Hb _]. destruct Hin as [<-|[]]. unfold base_ok in Hb. apply andb_prop in Hb as [H1 H2]. apply negb_true_iff in H1.
+    exists (c_base c1), n. repeat split; auto; lia.
 Qed.
 Lemma rvars_shape (r : row) : forall n x, row_bases_ok r = true -> In x (rvars r n) ->
   exists b i, x = nm b i /\ last_digit b = false /\ first_not_underscore b = true /\ n <= i < n + row_size r.
@@ -2168,6 +2330,7 @@ Definition col_declared (c : column) (n : nat) (st : state) : Prop :=
   | ColScalar e => declared e n st
   | ColVec cr _ _ => exists t v, fget (vcv_name cr n) st = Some (t, v)
   | ColFirst cr g _ _ => (exists t v, fget (vcv_name cr n) st = Some (t, v)) /\ fget (isf_name (n + gsize g)) st = Some ("bool", VBool true)
+  | ColVec2 c1 _ _ _ _ => exists t v, fget (vcv_name c1 n) st = Some (t, v)
   end.
 Fixpoint row_declared (r : row) (n : nat) (st : state) : Prop :=
   match r with [] => True | (_, c) :: t => col_declared c n st /\ row_declared t (n + col_size c) st end.
@@ -2175,11 +2338,12 @@ Fixpoint row_declared (r : row) (n : nat) (st : state) : Prop :=
 Lemma col_declared_ext (c : column) (n : nat) (st st' : state) :
   (forall x, In x (cvars c n) -> fget x st' = fget x st) -> col_declared c n st -> col_declared c n st'.
 Proof.
-  destruct c as [e|cr ps body|cr ps body line]; cbn [col_declared cvars]; intros H D.
+  destruct c as [e|cr ps body|cr ps body line|c1 g1 c2 g2 body]; cbn [col_declared cvars]; intros H D.
   - eapply declared_ext; eauto.
   - destruct D as (t & v & D). exists t, v. rewrite H; [exact D|left; reflexivity].
   - destruct D as [(t & v & D) Df]. split; [exists t, v; rewrite H; [exact D|left; reflexivity]|].
     rewrite H; [exact Df|right; left; reflexivity].
+  - destruct D as (t & v & D). exists t, v. rewrite H; [exact D|left; reflexivity].
 Qed.
 Lemma row_declared_ext (r : row) : forall n st st',
   (forall x, In x (rvars r n) -> fget x st' = fget x st) -> row_declared r n st -> row_declared r n st'.
@@ -2199,36 +2363,39 @@ Definition col_done (ev : event) (c : column) (mem : string) (n : nat) (st : sta
                    (exists old, mget mem st = Some (ex_type e, old))
   | ColVec cr ps body => exists v, p = Some v /\ (exists l, v = VVec l) /\ mget mem st = Some (col_type c, v)
   | ColFirst cr ps body _ => exists v, p = Some v /\ mget mem st = Some (col_type c, v)
+  | ColVec2 _ _ _ _ _ => exists v, p = Some v /\ (exists l, v = VVec l) /\ mget mem st = Some (col_type c, v)
   end.
 Lemma col_done_ext (ev : event) (c : column) (mem : string) (n : nat) (st st' : state) (p : option value) :
   (forall x, In x (cvars c n) -> fget x st' = fget x st) -> mget mem st' = mget mem st ->
   col_done ev c mem n st p -> col_done ev c mem n st' p.
 Proof.
-  destruct c as [e|cr ps body|cr ps body line]; cbn [col_done cvars]; intros Hf Hm D.
+  destruct c as [e|cr ps body|cr ps body line|c1 g1 c2 g2 body]; cbn [col_done cvars]; intros Hf Hm D.
   - destruct D as (B & E & (old & M)). split; [|split].
     + intros x Hx. rewrite (Hf x (bvars_incl e n x Hx)). apply B, Hx.
     + intro Hn. rewrite (tc_ext ev e n st st' B Hf). exact (E Hn).
     + exists old. rewrite Hm. exact M.
   - destruct D as (v & Ep & Sh & D). exists v. split; [exact Ep|]. split; [exact Sh|]. rewrite Hm. exact D.
   - destruct D as (v & Ep & D). exists v. split; [exact Ep|]. rewrite Hm. exact D.
+  - destruct D as (v & Ep & Sh & D). exists v. split; [exact Ep|]. split; [exact Sh|]. rewrite Hm. exact D.
 Qed.
 
 (* one column's code *)
-Lemma col_exec (brs : list branch) (ev : event) (idiom : string) (c : column) (mem : string) (n : nat) (st : state) :
+Lemma col_exec (brs : list branch) (ev : event) (idiom : string) (c : column) (mem : string) (ntk n : nat) (st : state) :
+  n + col_size c <= ntk ->
   col_bases_ok c = true -> col_declared c n st -> fget mem st = None ->
   (forall b i, first_not_underscore b = true -> mem <> nm b i) ->
   String.eqb mem (iv_name n) = false ->
-  (exists old, mget mem st = Some (col_type c, old) /\ match c with ColVec _ _ _ => old = VVec [] | _ => True end) ->
+  (exists old, mget mem st = Some (col_type c, old) /\ match c with ColVec _ _ _ | ColVec2 _ _ _ _ _ => old = VVec [] | _ => True end) ->
   match dcol1 ev c with
-  | ROk p => exists st', exec_stmts brs ev (css idiom c mem n) st = ROk st' /\ rows st' = rows st /\
+  | ROk p => exists st', exec_stmts brs ev (css idiom c mem ntk n) st = ROk st' /\ rows st' = rows st /\
                          (forall y, ~ In y (cvars c n) -> fget y st' = fget y st) /\
                          (forall m, String.eqb m mem = false -> mget m st' = mget m st) /\
                          col_done ev c mem n st' p
-  | RFault f => exec_stmts brs ev (css idiom c mem n) st = RFault f
+  | RFault f => exec_stmts brs ev (css idiom c mem ntk n) st = RFault f
   | RStuck _ => True
   end.
 Proof.
-  intros Hb D Hf Hshape Hiv (old & Hm & Hold).
+  intros Hntk Hb D Hf Hshape Hiv (old & Hm & Hold).
   assert (Hmb : String.eqb mem (bo_name n) = false).
   { destruct (String.eqb mem (bo_name n)) eqn:E; [|reflexivity]. apply String.eqb_eq in E. exfalso. exact (Hshape "bool_op" (S (S n)) eq_refl E). }
   assert (Hib : String.eqb (iv_name n) (bo_name n) = false) by (apply nm_neq; [reflexivity|reflexivity|lia]).
@@ -2236,7 +2403,7 @@ Proof.
   assert (Hmf : forall j, String.eqb mem (if_name j) = false).
   { intro j. destruct (String.eqb mem (if_name j)) eqn:E; [|reflexivity]. apply String.eqb_eq in E. exfalso. exact (Hshape "if_else_result" (S (S j)) eq_refl E). }
   assert (Hifiv : forall j, String.eqb (if_name j) (iv_name n) = false) by (intro j; apply nm_neq_base; [reflexivity|reflexivity|discriminate]).
-  destruct c as [e|cr ps body|cr ps body line]; cbn [dcol1 dcol css col_bases_ok col_declared cvars col_done col_type] in *.
+  destruct c as [e|cr ps body|cr ps body line|c1 g1 c2 g2 body]; cbn [dcol1 dcol css col_bases_ok col_declared cvars col_done col_type] in *.
   - pose proof (te_exec brs ev idiom e n st Hb D) as T.
     destruct (dstm ev e) as [[]|f|k]; cbn [rbind]; [|exact T|exact I].
     destruct T as (st' & E & M & R & U & B & V).
@@ -2314,6 +2481,46 @@ Proof.
         -- exists x. split; [reflexivity|exact G2].
       * rewrite (throw_if_armed brs ev (isf_name (n + gsize ps)) line st1 "bool" (lookup_fget _ _ _ Hisf1)). reflexivity.
     + rewrite (L I). reflexivity.
+  - destruct D as (tcv & v0 & Dcv). unfold vec2_stmts. rewrite exec_stmts_cons. cbn [exec_stmt].
+    destruct (assoc_ss (c_ctype c1, c_bank c1) (ev_colls ev)) as [cval|]; [|reflexivity].
+    destruct (assign_upd (vcv_name c1 n) cval st tcv v0 Dcv) as (Has & _ & Hcv1 & Hoth & Mem1 & R1).
+    rewrite Has. cbn [rbind]. rewrite exec_one. unfold tvec2_loop. rewrite exec_for.
+    change (eval ev (upd (vcv_name c1 n) cval st) (CDeref (CVar (vcv_name c1 n))))
+      with (rbind (eval ev (upd (vcv_name c1 n) cval st) (CVar (vcv_name c1 n)))
+                  (fun x => match x with VNull => RFault FNullDeref | _ => ROk x end)).
+    rewrite eval_var, (lookup_fget _ _ _ Hcv1).
+    set (st1 := upd (vcv_name c1 n) cval st) in *.
+    apply andb_prop in Hb as [Hb1 Hb2].
+    unfold base_ok in Hb1, Hb2. apply andb_prop in Hb1 as [L1 F1]. apply andb_prop in Hb2 as [L2 F2].
+    apply negb_true_iff in L1. apply negb_true_iff in L2.
+    assert (Hf1 : fget mem st1 = None).
+    { rewrite Hoth; [exact Hf|]. destruct (String.eqb mem (vcv_name c1 n)) eqn:E; [|reflexivity].
+      apply String.eqb_eq in E. exfalso. exact (Hshape _ _ F1 E). }
+    assert (Hm1 : mget mem st1 = Some (vec_type (vec_type (btype body)), VVec [])).
+    { unfold st1. rewrite mget_upd. subst old. exact Hm. }
+    assert (Hmc : String.eqb mem (vcv_name c2 (c2_at n g1)) = false).
+    { destruct (String.eqb mem (vcv_name c2 (c2_at n g1))) eqn:E; [|reflexivity]. apply String.eqb_eq in E. exfalso. exact (Hshape _ _ F2 E). }
+    assert (Hmnt : String.eqb mem (nt_name ntk) = false).
+    { destruct (String.eqb mem (nt_name ntk)) eqn:E; [|reflexivity]. apply String.eqb_eq in E. exfalso. exact (Hshape "ntuple" ntk eq_refl E). }
+    cbn [col_size] in Hntk. unfold c2_at in *.
+    assert (Hntc : String.eqb (nt_name ntk) (vcv_name c2 (S (S n) + gsize g1)) = false) by (apply nm_neq; [reflexivity|exact L2|lia]).
+    assert (Hntiv : String.eqb (nt_name ntk) (iv_name n) = false) by (apply nm_neq_base; [reflexivity|reflexivity|discriminate]).
+    assert (Hciv : String.eqb (vcv_name c2 (S (S n) + gsize g1)) (iv_name n) = false) by (apply nm_neq; [exact L2|reflexivity|lia]).
+    assert (Hntiv2 : String.eqb (nt_name ntk) (iv_name (S (S n) + gsize g1)) = false) by (apply nm_neq_base; [reflexivity|reflexivity|discriminate]).
+    assert (Hntbo2 : String.eqb (nt_name ntk) (bo_name (S (S n) + gsize g1)) = false) by (apply nm_neq_base; [reflexivity|reflexivity|discriminate]).
+    assert (Hntif : forall j, String.eqb (nt_name ntk) (if_name j) = false) by (intro j; apply nm_neq_base; [reflexivity|reflexivity|discriminate]).
+    destruct cval; cbn [rbind]; try exact I; try reflexivity.
+    pose proof (loop_vec2 brs ev idiom (c_arrow c1) g1 c2 g2 body mem (nt_name ntk) n l st1 [] Hf1 Hm1 Hiv Hmb Hmc Hmnt Hntc Hntiv Hciv Hntiv2 Hntbo2 Hntif) as LV.
+    unfold c2_at in LV.
+    destruct (vec2_loop ev g1 c2 g2 body l []) as [vs|f|k] eqn:Ev; cbn [rbind]; [| |exact I].
+    + rewrite (LV I).
+      destruct (assign_updm mem (VVec vs) st1 _ _ Hf1 Hm1) as (_ & _ & G & O & Fr & Rw).
+      eexists. split; [reflexivity|]. split; [congruence|]. split; [|split].
+      * intros y Hy. rewrite fget_updm. apply Hoth. destruct (String.eqb y (vcv_name c1 n)) eqn:E; [|reflexivity].
+        apply String.eqb_eq in E. exfalso. apply Hy. left; auto.
+      * intros m Hmne. rewrite (O m Hmne). apply mget_upd.
+      * exists (VVec vs). split; [reflexivity|]. split; [eexists; reflexivity|exact G].
+    + rewrite (LV I). reflexivity.
 Qed.
 
 (* ---------- all columns ---------- *)
@@ -2338,7 +2545,7 @@ Fixpoint mems_init (r : row) (nf k : nat) (st : state) : Prop :=
   | [] => True
   | (name, c) :: t =>
       (exists old, mget (mem_name name (nf + k)) st = Some (col_type c, old) /\
-                   match c with ColVec _ _ _ => old = VVec [] | _ => True end) /\ mems_init t nf (S k) st
+                   match c with ColVec _ _ _ | ColVec2 _ _ _ _ _ => old = VVec [] | _ => True end) /\ mems_init t nf (S k) st
   end.
 Lemma mems_init_ext (r : row) : forall nf k st st',
   (forall m, In m (rmems r nf k) -> mget m st' = mget m st) -> mems_init r nf k st -> mems_init r nf k st'.
@@ -2352,24 +2559,26 @@ Qed.
 Lemma mem_name_shape (name : string) (idx : nat) : forall b i, first_not_underscore b = true -> mem_name name idx <> nm b i.
 Proof. intros b i F. apply mem_not_shape, F. Qed.
 
-Lemma row_exec (brs : list branch) (ev : event) (idiom : string) (r : row) : forall (nf k n : nat) (st : state),
+Lemma row_exec (brs : list branch) (ev : event) (idiom : string) (r : row) : forall (nf k ntk n : nat) (st : state),
+  n + row_size r <= ntk ->
   row_bases_ok r = true -> row_declared r n st -> mems_init r nf k st ->
   (forall m, In m (rmems r nf k) -> fget m st = None) -> NoDup (rmems r nf k) ->
   match drow1 ev r with
-  | ROk vs => exists st', exec_stmts brs ev (rss idiom r nf k n) st = ROk st' /\ rows st' = rows st /\
+  | ROk vs => exists st', exec_stmts brs ev (rss idiom r nf k ntk n) st = ROk st' /\ rows st' = rows st /\
                           (forall y, ~ In y (rvars r n) -> fget y st' = fget y st) /\
                           (forall m, ~ In m (rmems r nf k) -> mget m st' = mget m st) /\
                           row_done ev r nf k n st' vs
-  | RFault f => exec_stmts brs ev (rss idiom r nf k n) st = RFault f
+  | RFault f => exec_stmts brs ev (rss idiom r nf k ntk n) st = RFault f
   | RStuck _ => True
   end.
 Proof.
-  induction r as [|[name c] t IH]; intros nf k n st Hb D Mi Sep Nd; cbn [drow1 rss row_bases_ok row_declared mems_init rmems rvars] in *.
+  induction r as [|[name c] t IH]; intros nf k ntk n st Hntk Hb D Mi Sep Nd; cbn [drow1 rss row_bases_ok row_declared mems_init rmems rvars row_size] in *.
   - exists st. repeat split; auto.
   - apply andb_prop in Hb as [Hc Ht]. destruct D as [Dc Dt]. destruct Mi as [Mc Mt].
     set (mem := mem_name name (nf + k)) in *.
     inversion Nd as [|? ? Nin Nd']; subst.
-    pose proof (col_exec brs ev idiom c mem n st Hc Dc (Sep mem (or_introl eq_refl)) (mem_name_shape name (nf + k)) (mem_neq_iv name (nf + k) n) Mc) as C.
+    assert (Hntk1 : n + col_size c <= ntk) by lia.
+    pose proof (col_exec brs ev idiom c mem ntk n st Hntk1 Hc Dc (Sep mem (or_introl eq_refl)) (mem_name_shape name (nf + k)) (mem_neq_iv name (nf + k) n) Mc) as C.
     rewrite exec_stmts_app.
     destruct (dcol1 ev c) as [v|f|kk]; cbn [rbind]; [|rewrite C; reflexivity|exact I].
     destruct C as (st1 & E1 & R1 & U1 & Mo1 & Dn1). rewrite E1. cbn [rbind].
@@ -2383,7 +2592,8 @@ Proof.
     { intros m Hm. rewrite U1; [apply Sep; right; exact Hm|].
       clear - Hm Hc. revert Hm. generalize (S k). induction t as [|[nm' c'] t' IHt]; intros k' Hm; cbn [rmems] in Hm; [destruct Hm|].
       destruct Hm as [<-|Hm]; [apply mem_not_cvar, Hc|exact (IHt _ Hm)]. }
-    specialize (IH nf (S k) (n + col_size c) st1 Ht Dt1 Mt1 Sep1 Nd').
+    assert (Hntk2 : n + col_size c + row_size t <= col_nts c + ntk) by lia.
+    specialize (IH nf (S k) (col_nts c + ntk) (n + col_size c) st1 Hntk2 Ht Dt1 Mt1 Sep1 Nd').
     destruct (drow1 ev t) as [vs|f|kk]; cbn [rbind]; [|exact IH|exact I].
     destruct IH as (st2 & E2 & R2 & U2 & Mo2 & Dn2).
     exists st2. split; [exact E2|]. split; [congruence|]. split; [|split; [|split]].
@@ -2402,7 +2612,7 @@ Fixpoint row_filled (r : row) (nf k : nat) (st : state) (vs : list value) : Prop
   | [], [] => True
   | (name, c) :: t, v :: vs' =>
       mget (mem_name name (nf + k)) st = Some (col_type c, v) /\
-      match c with ColVec _ _ _ => exists l, v = VVec l | _ => True end /\ row_filled t nf (S k) st vs'
+      match c with ColVec _ _ _ | ColVec2 _ _ _ _ _ => exists l, v = VVec l | _ => True end /\ row_filled t nf (S k) st vs'
   | _, _ => False
   end.
 Lemma row_filled_ext (r : row) : forall nf k st st' vs,
@@ -2432,7 +2642,7 @@ Proof.
   - exists st. repeat split; auto.
   - set (mem := mem_name name (nf + k)) in *. inversion Nd as [|? ? Nin Nd']; subst.
     rename H into Dc. rename H0 into Dt.
-    destruct c as [e|cr gd body|cr gd body line]; cbn [col_done col_size dcol2] in *.
+    destruct c as [e|cr gd body|cr gd body line|c1 g1 c2 g2 body]; cbn [col_done col_size dcol2] in *.
     + destruct Dc as (B & E & (old & M)).
       rewrite exec_stmts_cons, exec_set.
       destruct (de ev e) as [v0|f|kk] eqn:Ed; cbn [rbind]; [|rewrite (E I); reflexivity|exact I].
@@ -2476,6 +2686,17 @@ Proof.
       * rewrite (Mo2 mem Nin). exact M.
       * exact I.
       * exact Fi2.
+    + destruct Dc as (v & Ep & Sh & M). subst p. cbn [rbind].
+      specialize (IH nf (S k) (n + (4 + gsize g1 + gsize g2 + nifs body)) st ps' Dt).
+      assert (Sep1 : forall m, In m (rmems t nf (S k)) -> fget m st = None) by (intros m Hm; apply Sep; right; exact Hm).
+      specialize (IH Sep1 Nd').
+      destruct (drow2 ev t ps') as [vs'|f|kk]; cbn [rbind]; [|exact IH|exact I].
+      destruct IH as (st2 & E2 & F2 & R2 & Mo2 & Fi2).
+      exists st2. split; [exact E2|]. split; [exact F2|]. split; [exact R2|]. split; [|split; [|split]].
+      * intros m Hm. apply Mo2. intro H. apply Hm. right; exact H.
+      * rewrite (Mo2 mem Nin). exact M.
+      * exact Sh.
+      * exact Fi2.
 Qed.
 
 Definition mk_branch (m : (string * column) * member) : branch := {| br_name := fst (fst m); br_var := m_name (snd m) |}.
@@ -2490,7 +2711,7 @@ Fixpoint members_after (r : row) (nf k : nat) (st : state) (vs : list value) : P
   match r, vs with
   | [], [] => True
   | (name, c) :: t, v :: vs' =>
-      mget (mem_name name (nf + k)) st = Some (col_type c, match c with ColVec _ _ _ => VVec [] | _ => v end) /\
+      mget (mem_name name (nf + k)) st = Some (col_type c, match c with ColVec _ _ _ | ColVec2 _ _ _ _ _ => VVec [] | _ => v end) /\
       members_after t nf (S k) st vs'
   | _, _ => False
   end.
@@ -2511,7 +2732,7 @@ Proof.
   - exists st. repeat split; auto.
   - set (mem := mem_name name (nf + k)) in *. inversion Nd as [|? ? Nin Nd']; subst.
     destruct H0 as [Sh Dt]. rename H into M.
-    destruct c as [e|cr ps body|cr ps body line].
+    destruct c as [e|cr ps body|cr ps body line|c1 g1 c2 g2 body].
     + destruct (IH nf (S k) st vs' Dt) as (st2 & E2 & F2 & R2 & Mo2 & A2); [intros m Hm; apply Sep; right; exact Hm|exact Nd'|].
       exists st2. split; [exact E2|]. split; [exact F2|]. split; [exact R2|]. split; [|split].
       * intros m Hm. apply Mo2. intro H. apply Hm. right; exact H.
@@ -2535,6 +2756,19 @@ Proof.
       * intros m Hm. apply Mo2. intro H. apply Hm. right; exact H.
       * rewrite (Mo2 mem Nin). exact M.
       * exact A2.
+    + destruct Sh as [l Sh]. subst v.
+      destruct (assign_updm mem (VVec []) st _ _ (Sep mem (or_introl eq_refl)) M) as (Ha & Hlk & G & O & Fr & Rw).
+      rewrite exec_stmts_cons. cbn [exec_stmt]. rewrite Hlk, Ha. cbn [rbind].
+      set (st1 := updm mem (VVec []) st) in *.
+      destruct (IH nf (S k) st1 vs') as (st2 & E2 & F2 & R2 & Mo2 & A2).
+      { eapply row_filled_ext; [|exact Dt]. intros m Hm. apply O, (mem_in_neq t nf (S k) mem Nin m Hm). }
+      { intros m Hm. unfold st1. rewrite fget_updm. apply Sep. right; exact Hm. }
+      { exact Nd'. }
+      exists st2. split; [exact E2|]. split; [congruence|]. split; [congruence|]. split; [|split].
+      * intros m Hm. rewrite Mo2; [apply O|]; [|intro H; apply Hm; right; exact H].
+        destruct (String.eqb m mem) eqn:Em; [|reflexivity]. apply String.eqb_eq in Em. exfalso. apply Hm. left; auto.
+      * rewrite (Mo2 mem Nin). exact G.
+      * exact A2.
 Qed.
 
 (* ---------- declarations of a row; the whole program ---------- *)
@@ -2550,7 +2784,13 @@ Proof.
   - apply andb_prop in Hb as [Hc Ht]. rewrite run_decls_app.
     assert (C : exists st1, run_decls ev (cds c n) st = ROk st1 /\ col_declared c n st1 /\ members st1 = members st /\
                             rows st1 = rows st /\ (forall y, ~ In y (cvars c n) -> fget y st1 = fget y st)).
-    { destruct c as [e|cr ps body|cr ps body line]; cbn [cds col_declared cvars col_bases_ok] in *.
+    { destruct c as [e|cr ps body|cr ps body line|cr g1 c2 g2 body]; cbn [cds col_declared cvars col_bases_ok] in *.
+      4: { cbn [run_decls d_init d_name d_type].
+        destruct (declare_spec (vcv_name cr n) (c_ctype cr) (default_value (c_ctype cr)) st) as (G & O & M & R).
+        { apply Hf. left; reflexivity. }
+        eexists. split; [reflexivity|]. split; [eauto|]. split; [exact M|]. split; [exact R|].
+        intros y Hy. apply O. destruct (String.eqb y (vcv_name cr n)) eqn:E; [|reflexivity].
+        apply String.eqb_eq in E. exfalso. apply Hy. left; auto. }
       - apply decls_declared; [exact Hc|]. intros x Hx. apply Hf, in_or_app. left; exact Hx.
       - cbn [run_decls d_init d_name d_type].
         destruct (declare_spec (vcv_name cr n) (c_ctype cr) (default_value (c_ctype cr)) st) as (G & O & M & R).
@@ -2592,13 +2832,13 @@ Fixpoint members_init (r : row) (nf k : nat) (ms : frame) : Prop :=
   | [] => True
   | (name, c) :: t =>
       (exists old, frame_get (mem_name name (nf + k)) ms = Some (col_type c, old) /\
-                   match c with ColVec _ _ _ => old = VVec [] | _ => True end) /\ members_init t nf (S k) ms
+                   match c with ColVec _ _ _ | ColVec2 _ _ _ _ _ => old = VVec [] | _ => True end) /\ members_init t nf (S k) ms
   end.
 Fixpoint members_final (r : row) (nf k : nat) (ms : frame) (vs : list value) : Prop :=
   match r, vs with
   | [], [] => True
   | (name, c) :: t, v :: vs' =>
-      frame_get (mem_name name (nf + k)) ms = Some (col_type c, match c with ColVec _ _ _ => VVec [] | _ => v end) /\
+      frame_get (mem_name name (nf + k)) ms = Some (col_type c, match c with ColVec _ _ _ | ColVec2 _ _ _ _ _ => VVec [] | _ => v end) /\
       members_final t nf (S k) ms vs'
   | _, _ => False
   end.
@@ -2642,7 +2882,8 @@ Proof.
   assert (Sep1 : forall m, In m (rmems r nf 0) -> fget m st1 = None).
   { intros m Hm. rewrite (U1 m (NotVar m Hm)). reflexivity. }
   assert (Mi1 : mems_init r nf 0 st1) by (eapply mems_init_of; [exact M1|exact Mi]).
-  pose proof (row_exec brs ev (b_idiom bk) r nf 0 n0 st1 Hb D1 Mi1 Sep1 Nd) as RE.
+  assert (Hntk : n0 + row_size r <= nt_first nf r) by (unfold nt_first, nf; lia).
+  pose proof (row_exec brs ev (b_idiom bk) r nf 0 (nt_first nf r) n0 st1 Hntk Hb D1 Mi1 Sep1 Nd) as RE.
   unfold drow.
   destruct (drow1 ev r) as [ps|f|k]; cbn [rbind]; [| rewrite RE; reflexivity | exact I].
   destruct RE as (st2 & E2 & R2 & U2 & Mo2 & Dn2). rewrite E2. cbn [rbind]. rewrite exec_stmts_app.
@@ -2748,7 +2989,13 @@ Qed.
 Lemma dcol12_natural (ev : event) (c : column) (v : value) :
   (exists p, dcol1 ev c = ROk p /\ dcol2 ev c p = ROk v) <-> dcol ev c = ROk v.
 Proof.
-  destruct c as [e|cr ps body|cr ps body line]; cbn [dcol1 dcol2 dcol].
+  destruct c as [e|cr ps body|cr ps body line|c1 g1 c2 g2 body]; cbn [dcol1 dcol2 dcol].
+  4: { set (R := match assoc_ss (c_ctype c1, c_bank c1) (ev_colls ev) with
+              | Some (VVec l) => rdo vs <- vec2_loop ev g1 c2 g2 body l []; ROk (VVec vs)
+              | Some VNull => RFault FNullDeref | Some _ => RStuck (KType "the bank does not hold a collection") | None => RFault FRetrieve end).
+    split.
+    + intros (p & H1 & H2). destruct R as [x|f|k]; cbn [rbind] in H1; try discriminate. inversion H1; subst. cbn in H2. exact H2.
+    + intro H. rewrite H. exists (Some v). split; reflexivity. }
   - split.
     + intros (p & H1 & H2). exact H2.
     + intro H. exists None. split; [|exact H].
@@ -2857,3 +3104,59 @@ Qed.
 Lemma cond_lazy (ev : event) (v : value) (c : pred) (a b : pa) (t : bool) :
   dpred ev v c = ROk t -> dnat ev v (BIf c a b) = rbind (if t then dpa ev v a else dpa ev v b) (fun x => match conv "double" x with VUninit => RStuck (KUninit "conditional") | y => ROk y end).
 Proof. intro H. cbn [dnat]. unfold dcond. rewrite H. reflexivity. Qed.
+
+(* ---------- a 2-D column is the nested LINQ expression ---------- *)
+Lemma vec_loop_linq (ev : event) (ty : string) (body : bexp) (ps : guard) (f : value -> bool) (g : value -> value) (l : list value) : forall acc,
+  passes_total ev ps l f -> (forall v, In v l -> f v = true -> db ev v body = ROk (g v)) ->
+  vec_loop ev ty body ps l acc = ROk (acc ++ map (fun v => conv ty (g v)) (filter f l)).
+Proof.
+  induction l as [|v r IH]; intros acc Hp Hb; cbn [vec_loop filter map].
+  - rewrite app_nil_r. reflexivity.
+  - assert (Hr : passes_total ev ps r f) by (intros w Hw; apply Hp; right; exact Hw).
+    rewrite (Hp v (or_introl eq_refl)). cbn [rbind].
+    destruct (f v) eqn:Ef.
+    + rewrite (Hb v (or_introl eq_refl) Ef). cbn [rbind map].
+      rewrite (IH _ Hr (fun w Hw => Hb w (or_intror Hw))). rewrite <- app_assoc. reflexivity.
+    + apply (IH _ Hr (fun w Hw => Hb w (or_intror Hw))).
+Qed.
+Lemma vec2_loop_linq (ev : event) (g1 : guard) (c2 : collref) (g2 : guard) (body : bexp) (f1 : value -> bool) (x : value) (l : list value) : forall acc,
+  passes_total ev g1 l f1 -> dvec_of ev c2 g2 body = ROk x ->
+  vec2_loop ev g1 c2 g2 body l acc = ROk (acc ++ map (fun _ => x) (filter f1 l)).
+Proof.
+  induction l as [|v r IH]; intros acc Hp Hx; cbn [vec2_loop filter map].
+  - rewrite app_nil_r. reflexivity.
+  - assert (Hr : passes_total ev g1 r f1) by (intros w Hw; apply Hp; right; exact Hw).
+    rewrite (Hp v (or_introl eq_refl)). cbn [rbind].
+    destruct (f1 v) eqn:Ef.
+    + rewrite Hx. cbn [rbind map]. rewrite (IH _ Hr Hx). rewrite <- app_assoc. reflexivity.
+    + apply (IH _ Hr Hx).
+Qed.
+(* e.C1(b1).Where(f1).Select(lambda o: e.C2(b2).Where(f2).Select(lambda x: g x)) =
+   [ [ g x | x <- l2, f2 x ] | o <- l1, f1 o ]  when both banks hold collections and the predicates / the body are defined *)
+Theorem vec2_col_linq (ev : event) (c1 : collref) (g1 : guard) (c2 : collref) (g2 : guard) (body : bexp)
+        (f1 f2 : value -> bool) (g : value -> value) (l1 l2 : list value) :
+  assoc_ss (c_ctype c1, c_bank c1) (ev_colls ev) = Some (VVec l1) ->
+  assoc_ss (c_ctype c2, c_bank c2) (ev_colls ev) = Some (VVec l2) ->
+  passes_total ev g1 l1 f1 -> passes_total ev g2 l2 f2 ->
+  (forall v, In v l2 -> f2 v = true -> db ev v body = ROk (g v)) ->
+  dcol ev (ColVec2 c1 g1 c2 g2 body) =
+  ROk (VVec (map (fun _ => VVec (map (fun v => conv (btype body) (g v)) (filter f2 l2))) (filter f1 l1))).
+Proof.
+  intros H1 H2 P1 P2 Hb. cbn [dcol]. rewrite H1.
+  assert (Hx : dvec_of ev c2 g2 body = ROk (VVec (map (fun v => conv (btype body) (g v)) (filter f2 l2)))).
+  { unfold dvec_of. rewrite H2. rewrite (vec_loop_linq ev (btype body) body g2 f2 g l2 [] P2 Hb). reflexivity. }
+  rewrite (vec2_loop_linq ev g1 c2 g2 body f1 _ l1 [] P1 Hx). reflexivity.
+Qed.
+(* the second bank is looked at only when an element of the first passes: an event whose first collection is empty (or all
+   filtered out) has the empty column even if the second bank is missing *)
+Theorem vec2_col_lazy_inner (ev : event) (c1 : collref) (g1 : guard) (c2 : collref) (g2 : guard) (body : bexp) (l1 : list value) :
+  assoc_ss (c_ctype c1, c_bank c1) (ev_colls ev) = Some (VVec l1) ->
+  passes_total ev g1 l1 (fun _ => false) ->
+  dcol ev (ColVec2 c1 g1 c2 g2 body) = ROk (VVec []).
+Proof.
+  intros H1 P1. cbn [dcol]. rewrite H1.
+  assert (E : forall l acc, passes_total ev g1 l (fun _ => false) -> vec2_loop ev g1 c2 g2 body l acc = ROk acc).
+  { induction l as [|v r IH]; intros acc Hp; cbn [vec2_loop]; [reflexivity|].
+    rewrite (Hp v (or_introl eq_refl)). cbn [rbind]. apply IH. intros w Hw. apply Hp. right; exact Hw. }
+  rewrite (E l1 [] P1). reflexivity.
+Qed.
